@@ -63,6 +63,7 @@ func c18Mix(w *core.WorkerCtx, target *c18Node, feeders []*c18Node, users []*led
 	}
 	var known sync.Map // vertex hashes for by-hash reads
 	var parkedSeen, parkedDrained atomic.Int64
+	var orphans sync.Map
 	seq := atomic.Int64{}
 
 	// feeders: each builds its own branch on its own book and delivers to the target, sometimes child before parent
@@ -79,12 +80,14 @@ func c18Mix(w *core.WorkerCtx, target *c18Node, feeders []*c18Node, users []*led
 					continue
 				}
 				known.Store(v.Hash, v.Transaction.Hash)
-				if hold == nil && n%4 == 0 {
+				if fi == 0 && hold == nil && n%4 == 0 {
 					c := v
 					hold = &c // delivered after its child
 					continue
 				}
-				target.book.AddLeaf(ctx, ledger.CloneVertex(&v))
+				if err := target.book.AddLeaf(ctx, ledger.CloneVertex(&v)); ledger.IsParked(err) {
+					orphans.Store(v.Hash, true) // only the real retry ticker can admit it later
+				}
 				cnt["deliver"].Add(1)
 				if hold != nil {
 					target.book.AddLeaf(ctx, ledger.CloneVertex(hold))
@@ -243,8 +246,20 @@ func c18Mix(w *core.WorkerCtx, target *c18Node, feeders []*c18Node, users []*led
 	r.Eval(total)
 	r.Count("c18_parked_observed_polls", int(parkedSeen.Load()))
 	r.Count("c18_parked_drained_by_ticker", int(parkedDrained.Load()))
-	if parkedSeen.Load() > 0 && parkedDrained.Load() == 0 {
-		r.Inconc("vertices were parked but the retry ticker was never observed draining them")
+	// a vertex that was reported as arriving before its parent and is in the ledger now was admitted by the node's own
+	// retry ticker (the harness never re-delivers and does not use the retry hook here)
+	nOrphans, admitted := 0, 0
+	orphans.Range(func(k, _ any) bool {
+		nOrphans++
+		if _, err := target.book.ReadVertex(ctx, k.(ledger.H)); err == nil {
+			admitted++
+		}
+		return true
+	})
+	r.Count("c18_orphans_parked", nOrphans)
+	r.Count("c18_orphans_admitted_by_the_real_ticker", admitted)
+	if nOrphans > 0 && admitted == 0 {
+		r.Inconc("vertices were parked but none of them was admitted by the retry ticker during the run")
 	}
 	r.Nontriv(fmt.Sprintf("mix/%s/truncate=%v/parked=%v/drained=%v", tag, withTruncate, parkedSeen.Load() > 0, parkedDrained.Load() > 0))
 	r.Sample(4, map[string]any{"workload": tag, "with_truncation": withTruncate, "seconds": dur.Seconds(), "operations": total,
@@ -396,7 +411,7 @@ func init() {
 	core.Register(&core.Check{
 		Spec: core.Spec{
 			Prop: "C18",
-			Rule: "The monitor binary is built with -race and the workload runs in child processes with GORACE=halt_on_error=0 log_path=...; the parent parses the logs: every 'WARNING: DATA RACE' block is normalised (function names of both access stacks, line numbers stripped), de-duplicated by the pair of innermost repository frames (outermost entry points in the detail) and is a violation unless listed; reports without a repository frame count as inconclusive (harness). Workload per batch on one loaded node (Config.Truncate=2000) for >= 9 s (quick) / 30 s (thorough), i.e. several periods of the real 2 s retry ticker: 2 feeder nodes delivering their own branches (every 4th vertex child-before-parent so that the orphan buffer is in use while the real ticker drains it; the retry hook is not used), 2 local proposers, 2 balance readers, a history reader, a by-hash reader, a repeating DAG stream consumer, trusted-store updates; odd batches pre-build a 1080 vertex ledger and add truncation: a vertex of weight 3600+ makes the node's own truncation loop run the real truncate in its goroutine, plus truncations through the hook. A run in which parked vertices were seen but never drained by the ticker is inconclusive. Non-trivial = every workload; evaluations = operations executed.",
+			Rule: "The monitor binary is built with -race and the workload runs in child processes with GORACE=halt_on_error=0 log_path=...; the parent parses the logs: every 'WARNING: DATA RACE' block is normalised (function names of both access stacks, line numbers stripped), de-duplicated by the pair of innermost repository frames (outermost entry points in the detail) and is a violation unless listed; reports without a repository frame count as inconclusive (harness). Workload per batch on one loaded node (Config.Truncate=2000) for >= 9 s (quick) / 30 s (thorough), i.e. several periods of the real 2 s retry ticker: 2 feeder nodes delivering their own branches (one of them hands every 4th vertex over child-before-parent, after which its branch queues up behind the orphan buffer, so that the orphan buffer is in use while the real ticker drains it; the retry hook is not used), 2 local proposers, 2 balance readers, a history reader, a by-hash reader, a repeating DAG stream consumer, trusted-store updates; odd batches pre-build a 1080 vertex ledger and add truncation: a vertex of weight 3600+ makes the node's own truncation loop run the real truncate in its goroutine, plus truncations through the hook. A run in which vertices were parked but none was admitted by the real ticker is inconclusive. Non-trivial = every workload; evaluations = operations executed.",
 			Assumptions: []string{"the Go race detector reports only races that occur in the executed schedule", "the snapshot hook is not used while the workload runs (only VerifParkedLen, which takes the buffer's own lock)"},
 			MinEvals:    2000, MinNontriv: 2,
 			MinCounters: map[string]int{"c18_propose": 50, "c18_deliver": 50, "c18_balance": 50, "c18_stream": 5, "c18_deliver_orphan_first": 10},
